@@ -518,6 +518,42 @@ impl Scenario for S9 {
                         viol.push(v("C17", "hll/register-rule", 0, format!("HyperLogLog<str>, b = {}: registers differ from the rule applied to hash_one of every string", b)));
                         return;
                     }
+                    // Extend<&str> / Extend<&[u8]> with items that are slices of one buffer (same start
+                    // address, different lengths; adjacent; nested): every slice is its own element
+                    {
+                        let buf: String = names.iter().take(12).map(|s| s.as_str()).collect::<Vec<_>>().join("");
+                        let l = buf.len().min(40);
+                        let mut slices: Vec<&str> = vec![];
+                        for i in 1..=l {
+                            slices.push(&buf[..i]); // prefixes: one start address
+                        }
+                        for i in 1..l {
+                            slices.push(&buf[i..l]); // suffixes: one end
+                        }
+                        for i in 0..l / 2 {
+                            slices.push(&buf[i..l - i]); // nested
+                        }
+                        if case.b % 2 == 1 {
+                            slices.reverse();
+                        }
+                        let mut he = HyperLogLog::<str>::new(b);
+                        let mut hb = HyperLogLog::<[u8]>::new(b);
+                        let mut model_s = vec![0u8; 1 << b];
+                        let mut model_b = vec![0u8; 1 << b];
+                        for ch in slices.chunks(case.chunk.max(1)) {
+                            he.extend(ch.iter().copied());
+                            hb.extend(ch.iter().map(|s| s.as_bytes()));
+                        }
+                        for s in &slices {
+                            crate::s2h_hll::model_update(&mut model_s, b, bh.hash_one(*s));
+                            crate::s2h_hll::model_update(&mut model_b, b, bh.hash_one(s.as_bytes()));
+                        }
+                        stats.probe("via_extend_by_reference_unsized");
+                        if he.registers() != &model_s[..] || hb.registers() != &model_b[..] {
+                            viol.push(v("C17", "hll/extend-differs-from-add", 0, format!("HyperLogLog<{}>, b = {}: registers after extend(&T) over {} overlapping slices of one buffer differ from the rule applied to hash_one of every slice", if he.registers() != &model_s[..] { "str" } else { "[u8]" }, b, slices.len())));
+                            return;
+                        }
+                    }
                     let mut hu = HyperLogLog::<()>::new(4);
                     hu.add(&());
                     hu.add(&());
